@@ -20,9 +20,9 @@ PLAN = dict(
                     "up to clause order. theorems: see Props/C15.v (soundness and completeness proved "
                     "on the fragment without type parameters; regression statements for the instance-order defect fixed by d524b1f; annotation/erasure, rejection of mutation classes by the specification for all programs and sites). "
                     "round 2 (polymorphic fragment): soundness, completeness and exactness for all programs with identifier-like names (prog_names_ok; tested on every compared input: BAD otherwise) - the checker decides the rules "
-                    "(C15_check_exact_poly_partial, C15_check_decides); the former second guard decl_types_wf is established by the checker since fix <commit15> (Ty::check_template checks declaration types completely, without instantiating: "
+                    "(C15_check_exact_poly_partial, C15_check_decides); the former second guard decl_types_wf is established by the checker since fix eb42971 (Ty::check_template checks declaration types completely, without instantiating: "
                     "C15_check_accepts_only_wf_declarations, C15_check_template_exact, C15_nonregular_declaration_accepted); regression theorems about old_check_decls (the code before that fix: unsound, C15_regression_old_check_decls_unsound) "
-                    "and old_check_main (before fix <commit12>: main of a non-integer type accepted; now rule main : i64 in spec and checker, C15_check_main_i64); the former witnesses corpus/fun/c15-ill-accepted-*.sc, c12_main_nonint.sc are "
+                    "and old_check_main (before fix 5b8c76f: main of a non-integer type accepted; now rule main : i64 in spec and checker, C15_check_main_i64); the former witnesses corpus/fun/c15-ill-accepted-*.sc, c12_main_nonint.sc are "
                     "inputs tagged ill (a recurrence = VIOL accepts-ill-typed:ill); printed instance names injective; instance table: names distinct, every "
                     "declaration an instantiated template, defs_closed proved and evaluated on the REAL output (VIOL class=output-not-closed), full closure refuted (corpus/fun/c15_unused_*.sc); "
                     "a wrong number of type arguments rejected by the checker at every site (signature, let, destructor, case, constructor, new, Ty::check, declaration fields); "
